@@ -45,6 +45,10 @@ def get(name):
         return P(script="unicode", n_apps=1)
     if name == "holes":         # C04: size classes filled by explicit claims (numeric and decoys), holes, then allocate
         return P(script="holes", n_apps=2)
+    if name == "np-cross":          # C03 C07: several live nameplates, one retired with its mailbox, then releases and re-claims
+        return P(script=name, n_apps=2)
+    if name == "dst":               # C12 C13: local time zone around daylight-saving transitions
+        return P(script=name, n_apps=2, tz=[('US/Eastern', 1772952000), ('Europe/Berlin', 1774744500), ('US/Eastern', 1793511600), ('Australia/Lord_Howe', 1791040200), ('Europe/Berlin', 1792888200), ('UTC', 1772952000)])
     if name == "reuse-after-prune":   # C01 C02 C05 C08 C11: ids that come back after expiry in the same process
         return P(script=name, n_apps=2)
     if name == "crowd-retry":       # C05: the third side retries through every door while the first two come back (KF2 on purpose)
@@ -72,7 +76,7 @@ def cfg_for(name, seed):
                 {"allow_list": False, "usage": False, "blur": 60}, {"allow_list": True, "usage": True, "blur": 3600}][seed % 4]
     if name in ("scale-time",):      # usage database on (C15), with and without blur
         return USAGE_CFGS[seed % len(USAGE_CFGS)]
-    if name.startswith("scale-") or name in ("late-sweep", "stale-ns", "crowd-retry", "reuse-after-prune"):
+    if name.startswith("scale-") or name in ("late-sweep", "stale-ns", "crowd-retry", "reuse-after-prune", "dst", "np-cross"):
         return G.CONFIGS[seed % len(G.CONFIGS)]
     if name.startswith("holes"):     # listing allowed and disallowed, usage on and off, in turn
         return G.CONFIGS[seed % len(G.CONFIGS)]
